@@ -86,6 +86,10 @@ func judgePieces(c *Case) (sig, detail string) {
 }
 
 func judge(c *Case) (sig, detail string) {
+	return interp.Guard(func() (string, string) { return judgeRaw(c) }, func() { vt.Discard("an evaluation of this case ran out of its budget (inconclusive)") })
+}
+
+func judgeRaw(c *Case) (sig, detail string) {
 	if c.Form == "pieces" {
 		return judgePieces(c)
 	}
